@@ -312,7 +312,7 @@ PROPS["C12"] = dict(
                 "Example / GetAST / UsedUserTypes against 1-3 shared schemas (pre-compiled or racing on first use) and against private schemas, in half of the plans built from the same user-type objects. "
                 "Built with -race: any data race report fails the plan; every result must equal the sequential result. The harness does not own the scheduler - this is exploration amplified by "
                 "happens-before race detection, nothing more."),
-    level_note="trusted: Go race detector (reports only real races); 'compiled exactly once' is observed through equal results, not counted; plans do not share type objects that use allOf (recorded finding, avoided by construction and counted)",
+    level_note="trusted: Go race detector (reports only real races); 'compiled exactly once' is observed through equal results, not counted; since 71a7e05 plans also share type objects that use allOf (twin roots that define the parent differently included)",
     rule=("plans: G in {2,4,8,16,32} goroutines x 5-15/40 calls; non-trivial = >=2 goroutines with a shared first use or a shared Example call; distinct by plan"),
     assumptions=["a failed plan is replayed 20 times by --replay; a race report is conclusive by itself"],
     jobs=[job("plans", "^TestConcurrentSharing$", (4, 16), (150, 3000), (1200, 3000), race=True, race_attributed=True)],
@@ -330,7 +330,7 @@ _R5 = {
     "C08": "; or rule sets with an empty exclusive interval, a rule foreign to the declared kind, bounds of 2^64; minLength / minItems / precision of 2^64; second check: AddType after the first use (check, ast, example, validate, len) is refused or takes effect",
     "C09": "; layered acyclic graphs of 30-44 levels x 2 types whose number of paths is 2^levels (alternatives, or rules, key shortcuts, optional / required properties, array items; flat or with every type knowing every type): Check, Validate and Example return; types created with KeysAreOptionalByDefault, or members written as rule sets with a second rule, key-type aliases naming a missing type",
     "C11": "; schemas with several defective rule sets in one or rule, built afresh 2000 times by 8 goroutines (the defect reported must be the same whatever addresses the objects get); error messages compared; regex example bytes; one Document object validated repeatedly; schemas with regex types; types wired to each other and types known only through other types",
-    "C12": "; specs with regex types and with types wired to each other; private schemas add the type objects of the shared one; operations on the shared type objects themselves (Check of a type, Example of a regex type)",
+    "C12": "; in half of the plans the sequential oracle is computed after the concurrent run (first uses of process-wide state are raced to); roots that inherit from shared plain types; specs with regex types and with types wired to each other; private schemas add the type objects of the shared one; operations on the shared type objects themselves (Check of a type, Example of a regex type)",
     "C13": "; 22 rewrite kinds now (empty # comments, blank in empty containers, property after array, blank or tab between a bare rule name and its colon, ### block ### inside inline rule objects, notes on lines of their own); document re-spelling also over type graphs",
     "C14": "; negatives: blank-only JSON texts, type shortcuts cut off at the end of input; foreign text of several lines containing / and #; empty comments after an enum",
     "C15": "; key types as in C03; the bytes returned by Example() are overwritten (spare capacity included) before the schema is used again",
@@ -339,6 +339,28 @@ _R5 = {
     "C18": "; empty comments and comments before the opening bracket; duplicates by value (1.5 / 1.50, 0 / -0); curated patterns with assertions and non-ASCII classes",
 }
 for _k, _v in _R5.items():
+    PROPS[_k]["rule"] += _v
+
+# Rounds 8-11 (DESIGN §10.10-§10.13): what the generators and oracles gained
+_R8 = {
+    "C02": "; uri: fragments, user info with percent escapes, characters no URI holds, a second # or @ (definite classes of the reference); uuid digit positions filled with control characters and punctuation",
+    "C03": "; nullable on object rule sets; a property spelled like a key shortcut; types known only through the tables of other types; types created with KeysAreOptionalByDefault, optional: false written out; keys that need escapes",
+    "C04": "; scalar examples under an or none of whose alternatives admits them (rule sets without type whose rule cannot apply to the example's kind)",
+    "C05": "; texts nested 50-65537 levels deep, built by the check (valid, or cut by their last closers)",
+    "C07": "; six more NextLexeme calls after the end of the text or an error",
+    "C08": "; type names written with escapes; or with the bare name any; rule sets of inert rules; a rule set that is wrong while another alternative admits the example",
+    "C09": "; object rule sets naming a type through additionalProperties / {type, nullable} also on empty container examples; nullable on references; a second key shortcut; one name bound to two types in two tables",
+    "C10": "; exponents padded with up to 40 zeros; 0e1 spellings everywhere (the finding was repaired)",
+    "C11": "; expectations computed before the history in a process state with emptied pools; schema texts that end or begin in the middle of something; a validated Document read afterwards; regex objects with file names and seeds (an error names its own file)",
+    "C13": "; comments between key, colon and value; a multi-line annotation closing on the next line with the sibling behind it; empty block comments between tokens; notes after every closing brace; 28 rewrite kinds",
+    "C14": "; trailing user comments on the schema; an inline annotation cut by a comment (negative); texts of known length measured after every schema Len; tails beginning with a slash (recorded finding)",
+    "C15": "; 95-160 references to a type whose minItems array holds non-literal items; reference topologies drawn more often",
+    "C16": "; blanks after enum item notes and notes on lines between the items; item notes of enums inside or rule sets; block comments in and behind inline rule objects; comments around key colons",
+    "C17": "; error values moved to another file with SetFile; messages containing percent signs; the caret column behind non-ASCII text is not judged",
+    "C18": "; the empty pattern //; results of Values() overwritten by the caller; rule texts without a list or with a lone slash behind it; a rule added after the schema was looked at",
+    "C19": "; maps built by NewRuleASTNodes from shared arguments while the other map keeps changing; read-only walks left by a panic of their callback; small concurrent plans whose final state must be the outcome of some interleaving on the model",
+}
+for _k, _v in _R8.items():
     PROPS[_k]["rule"] += _v
 
 _UNBUILT = "check under construction in this session (see DESIGN.md section 5 for the planned design)"
